@@ -1240,6 +1240,13 @@ typedef struct {
 	size_t nbad;			/* frees of anything else */
 	const void *scratch;		/* BUF: the scratch array */
 	int freed_scratch;
+	/* UNPACKT: event trace.  live blocks with the index of the request that created them */
+	int trace_on;
+	void **tr_ptr;
+	size_t *tr_id;
+	size_t tr_n, tr_cap;
+	char *tr_buf;
+	size_t tr_len, tr_bufcap;
 } Recorder;
 
 static DRV_TLS Recorder g_rec;
@@ -1321,6 +1328,65 @@ rec_plan_refuses(const Recorder *r, size_t idx)
 	return 0;
 }
 
+static void
+tr_printf(Recorder *r, const char *fmt, unsigned long long a, unsigned long long b)
+{
+	char tmp[64];
+	int n = snprintf(tmp, sizeof tmp, fmt, a, b);
+
+	if (r->tr_len + (size_t) n + 1 > r->tr_bufcap) {
+		size_t nc = r->tr_bufcap ? r->tr_bufcap * 2 : 4096;
+		char *nb;
+		while (nc < r->tr_len + (size_t) n + 1)
+			nc *= 2;
+		nb = realloc(r->tr_buf, nc);
+		if (!nb)
+			drv_die("out of memory (trace)");
+		r->tr_buf = nb;
+		r->tr_bufcap = nc;
+	}
+	memcpy(r->tr_buf + r->tr_len, tmp, (size_t) n + 1);
+	r->tr_len += (size_t) n;
+}
+
+static void
+tr_add(Recorder *r, void *p, size_t id)
+{
+	if (r->tr_n == r->tr_cap) {
+		size_t nc = r->tr_cap ? r->tr_cap * 2 : 64;
+		void **np = realloc(r->tr_ptr, nc * sizeof *np);
+		size_t *ni;
+		if (!np)
+			drv_die("out of memory (trace)");
+		r->tr_ptr = np;
+		ni = realloc(r->tr_id, nc * sizeof *ni);
+		if (!ni)
+			drv_die("out of memory (trace)");
+		r->tr_id = ni;
+		r->tr_cap = nc;
+	}
+	r->tr_ptr[r->tr_n] = p;
+	r->tr_id[r->tr_n] = id;
+	r->tr_n++;
+}
+
+/* id of a live block, and forget it; (size_t) -1 if unknown */
+static size_t
+tr_take(Recorder *r, void *p)
+{
+	size_t i;
+
+	for (i = r->tr_n; i-- > 0;)
+		if (r->tr_ptr[i] == p) {
+			size_t id = r->tr_id[i];
+			r->tr_ptr[i] = r->tr_ptr[r->tr_n - 1];
+			r->tr_id[i] = r->tr_id[r->tr_n - 1];
+			r->tr_n--;
+			return id;
+		}
+	return (size_t) -1;
+}
+
 static void *
 rec_alloc(void *ad, size_t size)
 {
@@ -1346,6 +1412,8 @@ rec_alloc(void *ad, size_t size)
 	r->nreq++;
 	if (rec_plan_refuses(r, idx)) {
 		r->refused[idx] = 1;
+		if (r->trace_on)
+			tr_printf(r, " r%llu:%llu", idx, size);
 		return NULL;
 	}
 	p = malloc(size);		/* exact size: ASan sees over-reads/-writes */
@@ -1356,6 +1424,10 @@ rec_alloc(void *ad, size_t size)
 		return NULL;
 	}
 	ps_add(r, p);
+	if (r->trace_on) {
+		tr_printf(r, " a%llu:%llu", idx, size);
+		tr_add(r, p, idx);
+	}
 	return p;
 }
 
@@ -1366,6 +1438,8 @@ rec_free(void *ad, void *p)
 
 	if (p == NULL) {
 		r->nbad++;	/* do_free never passes NULL */
+		if (r->trace_on)
+			tr_printf(r, " x%llu%.0llu", 0, 0);
 		return;
 	}
 	if (p == r->scratch) {
@@ -1374,9 +1448,13 @@ rec_free(void *ad, void *p)
 	}
 	if (ps_remove(r, p)) {
 		r->nfree_ok++;
+		if (r->trace_on)
+			tr_printf(r, " f%llu%.0llu", tr_take(r, p), 0);
 		free(p);
 	} else {
 		r->nbad++;	/* not ours / already freed: do NOT pass it to free() */
+		if (r->trace_on)
+			tr_printf(r, " x%llu%.0llu", 1, 0);
 	}
 }
 
@@ -1403,6 +1481,9 @@ rec_purge(void)
 	r->nbad = 0;
 	r->scratch = NULL;
 	r->freed_scratch = 0;
+	r->trace_on = 0;
+	r->tr_n = 0;
+	r->tr_len = 0;
 }
 
 /* plan := - | idx(,idx)*  where the last element may be `k+` */
@@ -1623,6 +1704,34 @@ case_unpacka(void)
 	ob_sp_u64(g_rec.nbad);
 }
 
+/* UNPACKT <d> <hex> <plan>: the same run as UNPACKA, printed as the sequence of allocator events:
+ *   a<i>:<size>  request i granted    r<i>:<size>  request i refused    f<i>  block of request i freed
+ *   x<k>         free of NULL (0) / of a pointer that is not a live block (1)
+ *   U1 / U0      protobuf_c_message_unpack returned a message / NULL      F  free_unpacked returned */
+static void
+case_unpackt(void)
+{
+	const ProtobufCMessageDescriptor *desc = tok_desc();
+	size_t len;
+	uint8_t *data = tok_input_bytes(&len);
+	char *plan = tok();
+	ProtobufCMessage *m;
+
+	expect_eol();
+	rec_setup(plan);
+	g_rec.trace_on = 1;
+	m = protobuf_c_message_unpack(desc, &g_rec.base, len, data);
+	tr_printf(&g_rec, m ? " U1%.0llu%.0llu" : " U0%.0llu%.0llu", 0, 0);
+	if (m) {
+		protobuf_c_message_free_unpacked(m, &g_rec.base);
+		tr_printf(&g_rec, " F%.0llu%.0llu", 0, 0);
+	}
+	g_rec.trace_on = 0;
+	ob_puts("T");
+	if (g_rec.tr_len)
+		ob_puts(g_rec.tr_buf);
+}
+
 static void
 case_check(void)
 {
@@ -1760,6 +1869,8 @@ run_case(char *line)
 		case_rt();
 	else if (!strcmp(kw, "UNPACKA"))
 		case_unpacka();
+	else if (!strcmp(kw, "UNPACKT"))
+		case_unpackt();
 	else if (!strcmp(kw, "CHECK"))
 		case_check();
 	else if (!strcmp(kw, "BUF"))
